@@ -63,3 +63,9 @@ var specs = map[string]propSpec{
 		Thorough: tierCfg{Shards: 16, Checks: 100000, EnumShards: 8, Procs: []int{2}, TimeoutS: 3000, ReplayRepeat: 1,
 			Fuzz: []fuzzCfg{{"FuzzRequestHeader", 120}, {"FuzzResponseHeader", 120}}}},
 }
+
+func init() {
+	specs["C02"] = propSpec{Level: "exploration",
+		Quick:    tierCfg{Shards: 16, Checks: 400, Procs: mixedProcs, TimeoutS: 600, ReplayRepeat: 30},
+		Thorough: tierCfg{Shards: 16, Checks: 10000, Procs: mixedProcs, TimeoutS: 3000, ReplayRepeat: 200}}
+}
